@@ -405,6 +405,24 @@ func (m *Machine) advanceTime() bool {
 			act = append(act, t)
 		}
 	}
+	// periodic timers with structurally identical deadlines (tickers created together with the same period) fire in
+	// creation order: their mutual order at the same instant is not explored (stated bound)
+	if len(act) > 1 {
+		var keep []*Timer
+		for _, t := range act {
+			dup := false
+			for _, k := range keep {
+				if t.period != nil && k.period != nil && structEq(t.deadline, k.deadline) {
+					dup = true
+					break
+				}
+			}
+			if !dup {
+				keep = append(keep, t)
+			}
+		}
+		act = keep
+	}
 	if len(act) == 0 {
 		return false
 	}
